@@ -349,6 +349,18 @@ func stackageStructsEqual(x, y any) (tried bool, err error) {
 		}
 	}
 
+	// x is neither, but y may well be: that is a mismatch
+	// too, not a case for the generic struct comparison
+	// (which skips the one unexported field and so would
+	// report equality).
+	if !tried {
+		if _, jokc := conditionTypeAliasConverter(y); jokc {
+			tried = true
+		} else if _, joks := stackTypeAliasConverter(y); joks {
+			tried = true
+		}
+	}
+
 	err = errorf("Cannot compare stackage instances, cannot convert")
 
 	return
